@@ -20,6 +20,8 @@ for d in "$VERIF"/seeded/$PAT/; do
   if echo "$out" | grep -q "^VIOLATION property=$prop "; then
     res="DETECTED $(echo "$out" | grep -m1 'clause=' | sed 's/^ *//' | cut -c1-90)"
     [ -z "$(echo "$out" | grep -m1 'clause=')" ] && res="DETECTED (Miri stratum)"
+  elif [ "$(python3 -c "import json,sys; print(json.load(open(sys.argv[1])).get('status',''))" "$d/meta.json")" = "missed-documented" ]; then
+    res="MISSED (documented limit, see meta.json)"
   else
     res="MISSED"; fail=1
   fi
